@@ -1,7 +1,7 @@
 (* C19 -- property theorems.  Statements + `exact` only; proofs live in Proofs/C19.v.
    The definitions are those of Model/C19.v, which the correspondence of harness/props/c19.py
    evaluates on every generated document next to load_mei / load_kern (check_doc, check_kern_pitch). *)
-From PV Require Import Lib.Base Model.C19 Model.C19_mei Model.C19_disp Model.C19_kern Proofs.C19 Proofs.C19_export Proofs.C19_spine Proofs.C19_mei Proofs.C19_disp Proofs.C19_kern.
+From PV Require Import Lib.Base Model.C19 Model.C19_mei Model.C19_disp Model.C19_kern Proofs.C19 Proofs.C19_export Proofs.C19_spine Proofs.C19_mei Proofs.C19_disp Proofs.C19_kern Model.C19_hist Proofs.C19_hist.
 From Coq Require Import QArith Qround Ascii.
 #[local] Open Scope Z_scope.
 
@@ -350,3 +350,42 @@ Theorem kern_tandem_lookup_refuted :
     tbl = snd (spine_run 6 false false [] (firstn 6 ex_sp1) 0 O []) /\ line = 6 /\ pos = 12.
 Proof. exact kern_tandem_lookup_refuted_lemma. Qed.
 Print Assumptions kern_tandem_lookup_refuted.
+
+(* ---------------------------------------------------------------- state carried between calls (Model/C19_hist.v) *)
+
+(* a live part exported, edited, exported again (save_kern, note tokens): whatever earlier exports left in the part
+   (filled rests, added measures), the exports of EVERY history are the exports of freshly built parts holding the
+   notes the part has at that moment *)
+Theorem history_exports_fresh : forall ops s, h_run s ops = h_ref (h_notes s) ops.
+Proof. exact h_run_ref_lemma. Qed.
+Print Assumptions history_exports_fresh.
+
+Theorem history_state_independent : forall ops s1 s2, h_notes s1 = h_notes s2 -> h_run s1 ops = h_run s2 ops.
+Proof. exact h_run_state_independent_lemma. Qed.
+Print Assumptions history_state_independent.
+
+(* observation = f (current state): the export that ends any history writes the tokens of the current notes *)
+Theorem history_observation_current : forall pre keeps s,
+  last (h_run s (pre ++ [HSave keeps])) [] = h_view (h_notes_after (h_notes s) pre).
+Proof. exact h_obs_current_lemma. Qed.
+Print Assumptions history_observation_current.
+
+Theorem history_save_idempotent : forall k1 k2 s pre,
+  h_run s (pre ++ [HSave k1; HSave k2]) = h_run s (pre ++ [HSave k1]) ++ [last (h_run s (pre ++ [HSave k1])) []].
+Proof. exact h_save_idempotent_lemma. Qed.
+Print Assumptions history_save_idempotent.
+
+(* a writer that memoises its first export on the part contradicts it (witness: export, pitch edit, export) *)
+Theorem history_memo_refuted : exists notes ops, m_run None (HS notes [] false) ops <> h_run (HS notes [] false) ops.
+Proof. exact m_run_refuted_lemma. Qed.
+Print Assumptions history_memo_refuted.
+
+(* a token cache keyed by the position of the note only: right on every single export of a fresh part, wrong in a history *)
+Theorem history_position_cache_single_ok : forall notes keeps,
+  k_run [] (HS notes [] false) [HSave keeps] = h_run (HS notes [] false) [HSave keeps].
+Proof. exact k_run_single_ok_lemma. Qed.
+Print Assumptions history_position_cache_single_ok.
+
+Theorem history_position_cache_refuted : exists notes ops, k_run [] (HS notes [] false) ops <> h_run (HS notes [] false) ops.
+Proof. exact k_run_refuted_lemma. Qed.
+Print Assumptions history_position_cache_refuted.
